@@ -28,3 +28,60 @@ Proof. vm_compute. split; reflexivity. Qed.
 
 Print Assumptions C15_sched_indep.
 Print Assumptions C15_cross_thread_identity.
+
+(** ** the same for the crate's own recursions, and for reads that do not take the lock ([Interner/Conc.v]).
+
+    (1) The scheduler above runs the abstract step (unfold / operate / intern); [sys_step_i] runs [mstep_i]: the
+    memoised [and] recursion with the shared memo cache, [restrict], simplify / complexify on ids.  Every thread still
+    observes what the abstract sequential run of its own program observes, and a diagram has one id across threads.
+
+    (2) [kind()] - and with it evaluate, to_dnf, Display, cmp - reads arena entries WITHOUT the lock, one node at a
+    time, while other threads push nodes.  [aread w k x t]: a traversal that learns id [x] at instant [k] of the world
+    [w] (the arena at each instant, growing only by pushes) reads each node at some later instant, its children at
+    arbitrary still later instants, pushing the complement bit down as the crate does, and obtains the diagram [t].
+    Whatever the timing, [t] is the diagram [x] had when it was learnt, and the traversal never gets stuck; combined
+    with (1): a lock-free read of a register, concurrent with any schedule of the other threads' locked operations,
+    returns the diagram of the same register in the sequential abstract run of the reader's own program.
+
+    Assumed (runtime): the Mutex gives mutual exclusion to the locked operations; an index obtained from a NodeId
+    refers to a slot whose push happened-before (boxcar::Vec publication; ids travel between threads only through
+    synchronising channels); a slot is never written after its push. *)
+From PV Require Import Interner.AndModel Interner.InternI Interner.InternIProofs Interner.Conc.
+
+Theorem C15_sched_indep_real : forall (pv pfv : N) (progs : nat -> list mop) (sched : list nat) (t : nat),
+  observe (forget (view_i (sys_run_i pv pfv progs sched) t)) =
+  observe (mrun pv pfv init (firstn (sx_pc (sys_run_i pv pfv progs sched) t) (progs t))).
+Proof. exact sched_indep_i. Qed.
+
+Theorem C15_cross_thread_identity_real : forall (pv pfv : N) (progs : nat -> list mop) (sched : list nat) (t u : nat) (x y : nid),
+  In x (sx_regs (sys_run_i pv pfv progs sched) t) -> In y (sx_regs (sys_run_i pv pfv progs sched) u) ->
+  (unfold (sx_arena (sys_run_i pv pfv progs sched)) x = unfold (sx_arena (sys_run_i pv pfv progs sched)) y <-> x = y).
+Proof. exact cross_thread_identity_i. Qed.
+
+Theorem C15_lock_free_read_linearizable : forall (w : world) (k0 k : nat) (x : nid) (t : mdd),
+  mono w -> (forall k, Inv (w k)) -> valid (length (w k0)) x -> (k0 <= k)%nat -> aread w k x t -> t = unfold (w k0) x.
+Proof. exact aread_linearizable. Qed.
+
+Theorem C15_lock_free_read_never_stuck : forall (w : world) (k0 k : nat) (x : nid), mono w -> (forall k, Inv (w k)) ->
+  valid (length (w k0)) x -> (k0 <= k)%nat ->
+  (forall delay path, aread_fn w delay (S (rank x)) path k x = Some (unfold (w k0) x)) /\
+  aread w k x (unfold (w k0) x).
+Proof. exact aread_exists. Qed.
+
+Theorem C15_world_of_schedule : forall (pv pfv : N) (progs : nat -> list mop) (sched : list nat),
+  mono (world_of pv pfv progs sched) /\ forall k, Inv (world_of pv pfv progs sched k).
+Proof. intros. split; [apply world_of_mono | apply world_of_Inv]. Qed.
+
+Theorem C15_read_during_schedule : forall (pv pfv : N) (progs : nat -> list mop) (sched : list nat) (t k0 k j : nat) (x : nid) (tr : mdd),
+  nth_error (sx_regs (sys_run_i pv pfv progs (firstn k0 sched)) t) j = Some x ->
+  (k0 <= k)%nat -> aread (world_of pv pfv progs sched) k x tr ->
+  tr = unfold (world_of pv pfv progs sched k0) x /\
+  tr = nth j (reg_trees (solo_a pv pfv progs (sys_run_i pv pfv progs (firstn k0 sched)) t)) (Leaf true).
+Proof. exact conc_read_linearizable. Qed.
+
+Print Assumptions C15_sched_indep_real.
+Print Assumptions C15_cross_thread_identity_real.
+Print Assumptions C15_lock_free_read_linearizable.
+Print Assumptions C15_lock_free_read_never_stuck.
+Print Assumptions C15_world_of_schedule.
+Print Assumptions C15_read_during_schedule.
